@@ -42,8 +42,8 @@ SetLike(neg, x, p, mode) ==
 (* sign of an exactly zero sum of a and b (IEEE 754-2008 6.3) *)
 ZeroSumNeg(aneg, bneg, mode) == IF aneg = bneg THEN aneg ELSE mode = ToNegativeInf
 
-(* (+-) xN*10^xe  +  (+-) yN*10^ye, rounded once *)
-SumFinite(xneg, xN, xe, yneg, yN, ye, p, mode) ==
+(* (+-) xN*10^xe  +  (+-) yN*10^ye, rounded once: align, add or subtract, round *)
+SumFiniteFull(xneg, xN, xe, yneg, yN, ye, p, mode) ==
   LET e == IMin(xe, ye)
       a == Shl(xN, IToInt(ISub(xe, e)))
       b == Shl(yN, IToInt(ISub(ye, e)))
@@ -51,6 +51,17 @@ SumFinite(xneg, xN, xe, yneg, yN, ye, p, mode) ==
      ELSE IF a = b THEN Special("zero", mode = ToNegativeInf)
      ELSE IF Gt(a, b) THEN RoundTo(xneg, Sub(a, b), One, e, p, mode)
      ELSE RoundTo(yneg, Sub(b, a), One, e, p, mode)
+
+(* The same value without aligning across a huge exponent gap: an addend that lies entirely more  *)
+(* than p+3 digits below the other's LAST digit only decides "something non-zero down there" and  *)
+(* can be replaced by one unit p+4 digits below that last digit (mc/MC_Sum checks the equivalence *)
+(* with SumFiniteFull exhaustively on a bounded domain).                                          *)
+SumFinite(xneg, xN, xe, yneg, yN, ye, p, mode) ==
+  LET yFar == ILt(IAddInt(ye, Len(yN)), IAddInt(xe, -(p + 3)))       \* y < 10^(xe-p-3)
+      xFar == ILt(IAddInt(xe, Len(xN)), IAddInt(ye, -(p + 3)))
+  IN IF yFar THEN SumFiniteFull(xneg, xN, xe, yneg, One, IAddInt(xe, -(p + 4)), p, mode)
+     ELSE IF xFar THEN SumFiniteFull(xneg, One, IAddInt(ye, -(p + 4)), yneg, yN, ye, p, mode)
+     ELSE SumFiniteFull(xneg, xN, xe, yneg, yN, ye, p, mode)
 
 Pid2(x, y, pid) == IF x.form = "finite" /\ y.form = "finite" THEN pid ELSE "C04"
 
